@@ -72,6 +72,19 @@ impl<D, E> Reader<D, E> {
     }
 }
 
+impl<D, E> Drop for Reader<D, E> {
+    /// Tells the writer the receiver is gone: releases anything queued and makes the writer's
+    /// next flush fail rather than buffer for a consumer which no longer exists.
+    fn drop(&mut self) {
+        let Ok(mut l) = self.shared.lock() else {
+            return;
+        };
+        let _state = std::mem::replace(&mut l.state, SharedState::ReaderFused);
+        let _waker = l.waker.take();
+        drop(l); // drop of the queue might be slow; release lock first.
+    }
+}
+
 impl<D, E> futures_core::Stream for Reader<D, E>
 where
     D: From<Vec<u8>>,
